@@ -295,6 +295,13 @@ def _render_bindings(
                 rendered.append(item.rebuild(indent=indent, inline=inline))
             continue
         rendered.append(value.rebuild(indent=indent, inline=inline))
+    if not inline:
+        # A member that used to be the last one carries the blank line in front of
+        # the closing brace; once another member follows, the separator already
+        # ends its line (two blank lines in a row would not survive a re-parse).
+        for index, item in enumerate(rendered[:-1]):
+            if item.endswith("\n\n"):
+                rendered[index] = item[:-1]
     return rendered
 
 
